@@ -317,6 +317,7 @@ class _F1Walker(FactWalker):
         self.arrays = arrays
         self.res = res
         self.n = 0
+        self.label_arrays: Set[str] = {"labels"}
 
     def test_facts(self, test, facts):
         pos, neg = set(), set()
@@ -360,7 +361,7 @@ class _F1Walker(FactWalker):
 
     def on_store_subscript(self, target, stmt, facts):
         b = base_name(target)
-        if b == "labels" and isinstance(stmt, ast.Assign):
+        if b in self.label_arrays and isinstance(stmt, ast.Assign):
             v = stmt.value
             txt = norm(v)
             is_elem = (isinstance(v, ast.Name) and v.id in self.elems) or (
@@ -387,7 +388,6 @@ def rule_F1(repo: Repo) -> RuleResult:
     # route 1: the hand-written monotonic scan
     mf = fz.func("_monotonic_factorization")
     roles = infer_roles(mf)
-    elems = {n for n in roles.elem_of if n not in ("arr",)}
     # scalars only: names assigned from a subscript of an array-of-keys variable
     scalars: Set[str] = set()
     arrays: Set[str] = set()
@@ -405,6 +405,15 @@ def rule_F1(repo: Repo) -> RuleResult:
         raise AnalysisError("F1: cannot identify the key element variable of _monotonic_factorization")
     # the 'previous key' variable is only ever a copy of an element; obligations sit on the fresh element
     w = _F1Walker(mf, {s for s in scalars if _is_fresh_read_in_loop(mf, s)}, arrays, res)
+    # the label array: the array returned (sliced) in the last position of the result tuple
+    w.label_arrays = set()
+    for r in walk_no_nested(mf.node):
+        if isinstance(r, ast.Return) and isinstance(r.value, ast.Tuple) and r.value.elts:
+            last = r.value.elts[-1]
+            while isinstance(last, ast.Subscript):
+                last = last.value
+            if isinstance(last, ast.Name):
+                w.label_arrays.add(last.id)
     w.walk(mf.node.body, EMPTY)
     if w.n < 3:
         raise AnalysisError(f"F1: only {w.n} ordering comparisons / label stores found in _monotonic_factorization (floor 3)")
@@ -486,9 +495,24 @@ def rule_F1(repo: Repo) -> RuleResult:
             routes += 1
             res.ok(fc, n, norm(n)[:70], "delegated: pandas factorize_array emits -1 for nulls")
     # the monotonic prefix codes are widened to the signed type of the other chunks (null codes representable)
+    mono_codes_names: Set[str] = set()
     for n in walk_no_nested(fc.node):
-        if isinstance(n, ast.Assign) and any(isinstance(t, ast.Name) and t.id == "codes_list" for t in n.targets) \
-                and isinstance(n.value, ast.List) and n.value.elts and "mono_codes" in norm(n.value.elts[0]):
+        if isinstance(n, ast.Assign) and isinstance(n.value, ast.Call) and (call_name(n.value) or "").endswith("monotonic_factorization") \
+                and isinstance(n.targets[0], ast.Tuple) and len(n.targets[0].elts) == 3 and isinstance(n.targets[0].elts[1], ast.Name):
+            mono_codes_names.add(n.targets[0].elts[1].id)
+    changed_ = True
+    while changed_:
+        changed_ = False
+        for n in walk_no_nested(fc.node):
+            if isinstance(n, ast.Assign) and len(n.targets) == 1 and isinstance(n.targets[0], ast.Name) \
+                    and n.targets[0].id not in mono_codes_names and isinstance(n.value, ast.Subscript) \
+                    and isinstance(n.value.value, ast.Name) and n.value.value.id in mono_codes_names:
+                mono_codes_names.add(n.targets[0].id); changed_ = True
+    for n in walk_no_nested(fc.node):
+        if isinstance(n, ast.Assign) and len(n.targets) == 1 and isinstance(n.targets[0], ast.Name) \
+                and isinstance(n.value, ast.List) and len(n.value.elts) == 2 and isinstance(n.value.elts[1], ast.Starred) \
+                and norm(n.value.elts[1].value) == n.targets[0].id and mono_codes_names & {
+                    x.id for x in ast.walk(n.value.elts[0]) if isinstance(x, ast.Name)}:
             first = n.value.elts[0]
             if isinstance(first, ast.Call) and norm(first.func).endswith(".astype") and "int64" in norm(first):
                 res.ok(fc, n, norm(n), "prefix codes share the signed integer type of the other chunks")
